@@ -38,4 +38,12 @@ theorem factory_knows_the_compiled_hashes :
     ((List.range 256).all fun t => Gen.hashKnown.getD t false == (stringHash t []).isSome) = true := by
   decide +kernel
 
+/-- digest sizes, for every message: 20, 16 and 32 bytes (the file format reserves 32 bytes at offset 10 for whichever is used) -/
+theorem sha1_digest_length (m : Bytes) : (Spec.Hash.SHA1.hash m).length = 20 := by
+  simp [Spec.Hash.SHA1.hash, Spec.Hash.SHA1.digestBytes, Spec.Hash.be32Bytes]
+theorem md5_digest_length (m : Bytes) : (Spec.Hash.MD5.hash m).length = 16 := by
+  simp [Spec.Hash.MD5.hash, Spec.Hash.MD5.digestBytes, Spec.Hash.le32Bytes]
+theorem sha256_digest_length (m : Bytes) : (Spec.Hash.SHA256.hash m).length = 32 := by
+  simp [Spec.Hash.SHA256.hash, Spec.Hash.SHA256.digestBytes, Spec.Hash.be32Bytes]
+
 end Wencry.Props.C07
